@@ -105,6 +105,8 @@ type Case struct {
 	// the same entityID after a key rotation, a changed pin).  What counts is the configuration in force
 	// when the document is presented.
 	Prior string `json:"prior,omitempty"`
+	// InPlace: the reconfiguration overwrites the EntityDescriptor the SP points to instead of replacing the pointer
+	InPlace bool `json:"in_place,omitempty"`
 	// Noise: options of the SP that concern only what it sends (see spkit.Noise); the verdict must not depend on them
 	Noise uint64 `json:"noise,omitempty"`
 	Ops   []Op   `json:"ops"`
@@ -914,7 +916,7 @@ func check(c Case) pbt.Result {
 		}
 	}
 	if c.Prior != "" {
-		spkit.Retrust(sp, c.Trust)
+		spkit.Retrust(sp, c.Trust, c.InPlace)
 	}
 	var o spkit.Outcome
 	switch c.Entry {
@@ -1107,9 +1109,10 @@ func gen(t *rapid.T) Case {
 	}
 	if rapid.IntRange(0, 3).Draw(t, "reconfigured") == 0 {
 		c.Prior = rapid.SampledFrom(spkit.Trusts).Draw(t, "prior")
+		c.InPlace = rapid.Bool().Draw(t, "inplace")
 	}
 	if rapid.IntRange(0, 2).Draw(t, "noise?") == 0 {
-		c.Noise = rapid.Uint64Range(1, 255).Draw(t, "noise")
+		c.Noise = rapid.Uint64Range(1, 1023).Draw(t, "noise")
 	}
 	c.G = genGenuine(t, c.Entry)
 	if (c.Trust == "fp256" || c.Trust == "fp512") && c.G.KeyInfo == "none" {
@@ -1294,6 +1297,7 @@ func enumReconfigured(_ string, emit func(Case)) {
 							g.ArtSigner = signer
 						}
 						emit(Case{Trust: trust, Prior: prior, Warm: true, Entry: entry, G: g})
+						emit(Case{Trust: trust, Prior: prior, Warm: true, InPlace: true, Entry: entry, G: g})
 					}
 				}
 			}
